@@ -1,3 +1,4 @@
+import GomlVerif.Gen.StrEscapes
 /-!
 # C11 — string literals: what the lexer accepts and what lowering makes of it
 
@@ -8,9 +9,13 @@
 * `lowerMultiline` mirrors the `MultilineStrExpr` case: per line, leading blanks and the `\\`
   marker are dropped, the rest is kept raw, lines are joined with `\n`.
 
-Import-free. All functions work on `List Char`.
+The escape table, the surrogate ranges and the arithmetic that recombines a surrogate pair are
+not written here: they are `Gen/StrEscapes.lean`, regenerated from the Rust text on every run.
+
+Import-free apart from that table. All functions work on `List Char`.
 -/
 namespace Goml.StrLit
+open Goml.Gen.StrEscapes
 
 def isHex (c : Char) : Bool :=
   ('0' ≤ c && c ≤ '9') || ('a' ≤ c && c ≤ 'f') || ('A' ≤ c && c ≤ 'F')
@@ -25,51 +30,55 @@ def hex4 (a b c d : Char) : Option Nat :=
     some (((hexVal a * 16 + hexVal b) * 16 + hexVal c) * 16 + hexVal d)
   else none
 
-/-- the one-character escapes of the lexer: `\" \\ \/ \b \f \n \r \t` -/
-def simpleEscape : Char → Option Char
-  | '"' => some '"'
-  | '\\' => some '\\'
-  | '/' => some '/'
-  | 'b' => some (Char.ofNat 8)
-  | 'f' => some (Char.ofNat 12)
-  | 'n' => some '\n'
-  | 'r' => some '\r'
-  | 't' => some '\t'
-  | _ => none
+/-- the one-character escapes of `unescape_string` (arms of its `match`, generated table) -/
+def simpleEscape (e : Char) : Option Char :=
+  (simpleTable.find? (fun p => p.1 == e.toNat)).map (fun p => Char.ofNat p.2)
+
+/-- the escape letters the `Str` token regex admits after a backslash (generated list) -/
+def lexEscape (e : Char) : Bool := lexerEscapes.contains e.toNat
 
 /-- the `Str` regex on the text between the quotes (fuel = length, always enough) -/
 def acceptsF : Nat → List Char → Bool
   | _, [] => true
   | 0, _ => false
   | f + 1, '\\' :: 'u' :: a :: b :: c :: d :: rest => (hex4 a b c d).isSome && acceptsF f rest
-  | f + 1, '\\' :: e :: rest => (simpleEscape e).isSome && acceptsF f rest
+  | f + 1, '\\' :: e :: rest => lexEscape e && acceptsF f rest
   | f + 1, c :: rest => c != '"' && c != '\\' && 32 ≤ c.toNat && acceptsF f rest
 
 def accepts (s : List Char) : Bool := acceptsF s.length s
 
-def isHighSurrogate (n : Nat) : Bool := 0xD800 ≤ n && n < 0xDC00
-def isLowSurrogate (n : Nat) : Bool := 0xDC00 ≤ n && n < 0xE000
+def isHighSurrogate (n : Nat) : Bool := decide (highLo ≤ n) && decide (n < highHi)
+def isLowSurrogate (n : Nat) : Bool := decide (lowLo ≤ n) && decide (n < lowHi)
+
+/-- `char::from_u32`: only Unicode scalar values are characters -/
+def scalar? (n : Nat) : Option Char :=
+  if n < 0xD800 ∨ (0xDFFF < n ∧ n < 0x110000) then some (Char.ofNat n) else none
+
+/-- the `'u'` arm of `unescape_string` after the four digits `a b c d`: the character denoted and
+the unread rest; a high surrogate needs a following `\\uXXXX` low surrogate, the pair is recombined
+by the generated `combine`; `none` = no character (`return None` / `char::from_u32(code)?`) -/
+def readU (a b c d : Char) (rest : List Char) : Option (Char × List Char) :=
+  match hex4 a b c d with
+  | none => none
+  | some hi =>
+    if isHighSurrogate hi then
+      match rest with
+      | '\\' :: 'u' :: a' :: b' :: c' :: d' :: rest' =>
+        match hex4 a' b' c' d' with
+        | some lo =>
+          if isLowSurrogate lo then (scalar? (combine hi lo)).map (·, rest') else none
+        | none => none
+      | _ => none
+    else (scalar? hi).map (·, rest)
 
 /-- `unescape_string`: `none` = "invalid escape" diagnostic -/
 def decodeF : Nat → List Char → Option (List Char)
   | _, [] => some []
   | 0, _ => none
   | f + 1, '\\' :: 'u' :: a :: b :: c :: d :: rest =>
-    match hex4 a b c d with
+    match readU a b c d rest with
+    | some (ch, rest') => (decodeF f rest').map (ch :: ·)
     | none => none
-    | some hi =>
-      if isHighSurrogate hi then
-        match rest with
-        | '\\' :: 'u' :: a' :: b' :: c' :: d' :: rest' =>
-          match hex4 a' b' c' d' with
-          | some lo =>
-            if isLowSurrogate lo then
-              (decodeF f rest').map (Char.ofNat (0x10000 + (hi - 0xD800) * 0x400 + (lo - 0xDC00)) :: ·)
-            else none
-          | none => none
-        | _ => none
-      else if isLowSurrogate hi then none
-      else (decodeF f rest).map (Char.ofNat hi :: ·)
   | f + 1, '\\' :: e :: rest =>
     match simpleEscape e with
     | some c => (decodeF f rest).map (c :: ·)
@@ -99,6 +108,22 @@ def escapeChar (c : Char) : List Char :=
 def escape : List Char → List Char
   | [] => []
   | c :: cs => escapeChar c ++ escape cs
+
+/-- four lower-case hexadecimal digits -/
+def hex4s (n : Nat) : List Char :=
+  [hexDigit (n / 4096 % 16), hexDigit (n / 256 % 16), hexDigit (n / 16 % 16), hexDigit (n % 16)]
+
+/-- `\\uXXXX` -/
+def uesc (n : Nat) : List Char := '\\' :: 'u' :: hex4s n
+
+/-- a character spelled with `\\u` escapes only: one escape in the BMP, a UTF-16 surrogate pair above -/
+def escapeU (c : Char) : List Char :=
+  if c.toNat < 0x10000 then uesc c.toNat
+  else uesc (0xD800 + (c.toNat - 0x10000) / 0x400) ++ uesc (0xDC00 + (c.toNat - 0x10000) % 0x400)
+
+def escapeAllU : List Char → List Char
+  | [] => []
+  | c :: cs => escapeU c ++ escapeAllU cs
 
 /-! ### multi-line strings -/
 
